@@ -2,7 +2,7 @@
 //!
 //! Oracle (decides the property on the real code, independent of the Coq model): every parser in
 //! `c15_parsers.rs` is fed (a) all short byte strings, (b) every valid encoding mutated by truncation at
-//! every length, byte substitution at every offset with {00,01,7F,80,FF}, every 2/4/8-byte field set to
+//! every length, byte substitution at every offset with {00,01,7F,80,FF}, every byte +-1, every 2/4/8-byte field set to
 //! FF.., a maximal LEB128 spliced in at every offset, appended garbage, deletions/duplications, random
 //! multi-byte damage, (c) random strings, each with every plausible expected-length argument.  The cases
 //! run in child processes under RLIMIT_AS with a per-case wall-clock limit; the verdict per case is
@@ -74,7 +74,7 @@ impl Src {
             Src::Mut { seed, args, .. } => {
                 let l = seed.len();
                 let np = positions(l).len();
-                args.len() + trunc_lengths(l).len() * (if args.len() > 1 { 2 } else { 1 }) + np * 5 + np * 4 + np * 2 + 16 + 48 + np * 2
+                args.len() + trunc_lengths(l).len() * (if args.len() > 1 { 2 } else { 1 }) + np * 5 + np * 4 + np * 2 + 16 + 48 + np * 2 + np * 2
             }
             Src::Enum { n, alpha, .. } => alpha.len().pow(*n as u32),
             Src::Rand { count, .. } => *count,
@@ -162,6 +162,14 @@ impl Src {
                     return (*p, *true_arg, b, "multi_byte");
                 }
                 k -= 48;
+                if k < np * 2 {
+                    // off-by-one neighbours of every byte: length/offset fields just past their bound
+                    let mut b = seed.clone();
+                    let at = pos[k / 2];
+                    b[at] = if k % 2 == 0 { b[at].wrapping_add(1) } else { b[at].wrapping_sub(1) };
+                    return (*p, *true_arg, b, "byte_plus_minus_one");
+                }
+                k -= np * 2;
                 let at = pos[k / 2];
                 let mut b = seed[..at].to_vec();
                 if k % 2 == 1 { b.push(seed[at]); b.push(seed[at]); }
@@ -278,6 +286,8 @@ fn run_worker(w: usize, globals: Vec<usize>, srcs: &[Src], strides: &[usize], na
     let src_json: Vec<Value> = globals.iter().map(|&g| { let mut j = srcs[g].to_json(names); j["obs_stride"] = json!(strides[g]); j }).collect();
     let exe = std::env::current_exe().expect("current exe");
     let (mut s0, mut i0) = (0usize, 0usize);
+    let mut deaths: std::collections::HashMap<usize, u32> = Default::default();
+    let mut hangs: std::collections::HashMap<Option<usize>, u32> = Default::default();
     loop {
         if s0 >= globals.len() { break; }
         let job = json!({"child": true, "sources": src_json, "cur": cur_path, "res": res_path, "start_src": s0, "start_i": i0});
@@ -331,6 +341,16 @@ fn run_worker(w: usize, globals: Vec<usize>, srcs: &[Src], strides: &[usize], na
         o.restarts += 1;
         if o.restarts > 3000 { o.notes.push(format!("worker {} gave up after 3000 restarts", w)); break; }
         s0 = si; i0 = i + 1;
+        // a systematically broken parser must not eat the budget: after 3 hangs, or 40 process deaths
+        // in one source, the rest of that source is skipped (it already has its failing inputs)
+        *deaths.entry(si).or_insert(0u32) += 1;
+        if timed_out { *hangs.entry(srcs[globals[si]].parser()).or_insert(0u32) += 1; }
+        let hung = |k: usize| hangs.get(&srcs[globals[k]].parser()).copied().unwrap_or(0) >= 3;
+        if deaths[&si] >= 40 || hung(si) {
+            o.notes.push(format!("source {} ({}) abandoned after repeated crashes/timeouts", globals[si], srcs[globals[si]].parser().map(|p| names[p]).unwrap_or("?")));
+            s0 = si + 1; i0 = 0;
+            while s0 < globals.len() && hung(s0) { s0 += 1; }
+        }
         while s0 < globals.len() && i0 >= srcs[globals[s0]].len() { s0 += 1; i0 = 0; }
     }
     if let Ok(txt) = std::fs::read_to_string(&res_path) {
@@ -420,7 +440,7 @@ pub fn run(args: &Args) {
     }
     let ps = parsers();
     let names: Vec<&str> = ps.iter().map(|p| p.name).collect();
-    let mut sum = Summary::new("C15", "every parser x {all byte strings of length <= 1, length 2 (all 65536 for cheap parsers, a 12-letter boundary alphabet otherwise), length 3 over the alphabet; every valid encoding (several messages per codec) mutated by truncation at every length, substitution at every offset with 00/01/7F/80/FF, 2/4/8-byte fields set to FF, maximal LEB128 spliced in, 1-16 bytes appended, byte deleted/duplicated, random multi-byte damage; random strings <= 64 bytes} x every plausible expected-length argument {0,1,len-1,len,len+1,2^32-1,usize::MAX}; each case in a child process under RLIMIT_AS 1 GiB with a wall-clock limit; a case is non-trivial when it is a damaged valid encoding or has >= 2 bytes; distinct = distinct (source,index)");
+    let mut sum = Summary::new("C15", "every parser x {all byte strings of length <= 1, length 2 (all 65536 for cheap parsers, a 12-letter boundary alphabet otherwise), length 3 over the alphabet; every valid encoding (several messages per codec) mutated by truncation at every length, substitution at every offset with 00/01/7F/80/FF and with byte+-1, 2/4/8-byte fields set to FF, maximal LEB128 spliced in, 1-16 bytes appended, byte deleted/duplicated, random multi-byte damage; random strings <= 64 bytes} x every plausible expected-length argument {0,1,len-1,len,len+1,2^32-1,usize::MAX}; each case in a child process under RLIMIT_AS 1 GiB with a wall-clock limit; a case is non-trivial when it is a damaged valid encoding or has >= 2 bytes; distinct = distinct (source,index)");
     sum.max_failures = 60;
     let mut shards = CoqShards::new(HEADER, 300);
     let limit = Duration::from_secs(if args.thorough { 10 } else { 4 });
